@@ -444,6 +444,22 @@ var catalogue = []mutation{
 		a.RemainingFields["soft_fail"] = mut
 		return true
 	}},
+	{"matrix-extra-key-change", true, func(t *rapid.T, w *world, _ *auxData) bool {
+		// a key of the matrix itself next to setup / adjustments (also next to a plain value list)
+		m := w.step.Matrix
+		if m == nil {
+			return false
+		}
+		if _, has := m.RemainingFields["extra"]; has && rapid.Bool().Draw(t, "dropextra") {
+			delete(m.RemainingFields, "extra")
+			return true
+		}
+		if m.RemainingFields == nil {
+			m.RemainingFields = map[string]any{}
+		}
+		m.RemainingFields["extra"] = mut
+		return true
+	}},
 	{"adjustment-add", true, func(t *rapid.T, w *world, _ *auxData) bool {
 		m := w.step.Matrix
 		if m == nil || len(m.Setup) == 0 {
@@ -719,7 +735,7 @@ var catalogue = []mutation{
 	}},
 }
 
-var rec = ev.New("TestPropMutationsBreakVerification", "command steps built as structs (S command text, step env, plugins with nested configs from the documented source forms, matrices with adjustments and extras, unsigned label/key/cache/unknown fields), pipeline env, repository URL, key kind in {EdDSA, ES512, PS512, ES256 signer}; each case signs, checks the positive control (verification env = pipeline env + unrelated variables, public half only), applies ONE mutation from a catalogue of 43 semantic mutations (must fail) or 9 benign ones (must still verify); non-trivial = semantic mutation applied to a step with >= 1 plugin or matrix or step env; distinct by hash of (step, mutation, key kind)")
+var rec = ev.New("TestPropMutationsBreakVerification", "command steps built as structs (S command text, step env, plugins with nested configs from the documented source forms, matrices with adjustments and extras, unsigned label/key/cache/unknown fields), pipeline env, repository URL, key kind in {EdDSA, ES512, PS512, ES256 signer}; each case signs, checks the positive control (verification env = pipeline env + unrelated variables, public half only), applies ONE mutation from a catalogue of 44 semantic mutations (must fail) or 9 benign ones (must still verify); non-trivial = semantic mutation applied to a step with >= 1 plugin or matrix or step env; distinct by hash of (step, mutation, key kind)")
 
 func TestPropMutationsBreakVerification(t *testing.T) {
 	ctx := context.Background()
@@ -730,6 +746,21 @@ func TestPropMutationsBreakVerification(t *testing.T) {
 		step, canonMap := g.Step()
 		penv := g.EnvMap("penv", 4)
 		repo := g.RepoURL()
+		if rapid.IntRange(0, 3).Draw(t, "fieldnamevars") == 0 {
+			// pipeline variables that are NAMED like the signed step fields, often holding the very value of
+			// that field: the env:: namespace is what keeps the two apart
+			for _, n := range []string{"command", "repository_url", "env", "plugins", "matrix"} {
+				switch rapid.IntRange(0, 2).Draw(t, "fieldnamevar") {
+				case 0:
+					continue
+				case 1:
+					penv[n] = map[string]string{"command": step.Command, "repository_url": repo}[n]
+				default:
+					penv[n] = g.Str("fieldnamevalue")
+				}
+				delete(step.Env, n)
+			}
+		}
 		// the key KIND first (the crypto.Signer path is its own branch of Sign and Verify), weighted by
 		// cost: EdDSA and the ES256 signer are cheap, PS512 is slow
 		kind := rapid.SampledFrom([]string{"EdDSA", "EdDSA", "EdDSA", "ES256-signer", "ES256-signer", "ES512", "ES512", "PS512"}).Draw(t, "keykind")
